@@ -3,7 +3,7 @@ import torch
 from typing import Union, Mapping, Any, Optional, Tuple, Callable
 from xitorch import LinearOperator
 from xitorch._core.linop import MatrixLinearOperator
-from xitorch.linalg.solve import solve
+from xitorch.linalg.solve import solve, _grad_wrt_differentiable
 from xitorch.debug.modes import is_debug_enabled
 from xitorch._utils.assertfuncs import assert_runtime
 from xitorch._utils.misc import set_default_option, \
@@ -327,7 +327,7 @@ class symeig_torchfcn(torch.autograd.Function):
         # for the *params node and propagate further backward via the `evecs`
         # path. So make sure all the *params are all connected in the graph.
         with torch.enable_grad():
-            params = [p.clone().requires_grad_() for p in params]
+            params = [p.clone().requires_grad_() if p.requires_grad else p for p in params]
             with A.uselinopparams(*params):
                 loss = A.mm(evecs)  # (*BAM, na, neig)
 
@@ -371,17 +371,12 @@ class symeig_torchfcn(torch.autograd.Function):
 
         # accummulate the gradient contributions
         gaccumA = gevalsA + gevecsA
-        grad_params = torch.autograd.grad(
-            outputs=(loss,),
-            inputs=params,
-            grad_outputs=(gaccumA,),
-            create_graph=torch.is_grad_enabled(),
-        )
+        grad_params = _grad_wrt_differentiable(loss, params, gaccumA, torch.is_grad_enabled())
 
         grad_mparams = []
         if ctx.M is not None:
             with torch.enable_grad():
-                mparams = [p.clone().requires_grad_() for p in mparams]
+                mparams = [p.clone().requires_grad_() if p.requires_grad else p for p in mparams]
                 with M.uselinopparams(*mparams):
                     mloss = M.mm(evecs)  # (*BAM, na, neig)
             gevalsM = -gevalsA * evals.unsqueeze(-2)
@@ -392,12 +387,7 @@ class symeig_torchfcn(torch.autograd.Function):
                            ).unsqueeze(-2) * evecs  # (*BAM, na, neig)
 
             gaccumM = gevalsM + gevecsM + gevecsM_par
-            grad_mparams = torch.autograd.grad(
-                outputs=(mloss,),
-                inputs=mparams,
-                grad_outputs=(gaccumM,),
-                create_graph=torch.is_grad_enabled(),
-            )
+            grad_mparams = _grad_wrt_differentiable(mloss, mparams, gaccumM, torch.is_grad_enabled())
 
         return (None, None, None, None, None, None, None, *grad_params, *grad_mparams)
 
